@@ -224,4 +224,14 @@ def rtuMargin (rate waitNs postNs ε : Nat) : Nat :=
   (if waitNs > 0 then waitNs + ε else 0) + (postNs + ε) +
     (Timing.maxRTUFrameLength * Timing.t1 rate + ε) + 500000
 
+/-! ### the text format, checked at elaboration time (compiled evaluation; not theorems) -/
+
+#guard showTrace [.setDeadline 1000000, .write 12, .read 7 7, .read 4 2, .readEnd 2, .sleep 146666496] =
+  "sd:1000000 w:12 r:7:7 r:4:2 re:2 sl:146666496"
+#guard showTrace [] = ""
+#guard showTrace (mbapTrace 1000000 12 0x1235 [0x12, 0x35, 0, 0, 0, 5, 1, 3, 2, 0xAB, 0xCD]) =
+  "sd:1000000 w:12 r:7:7 r:4:4"
+#guard showTrace (rtuTrace 1000000 19200 8 250000 5916661 [0x01, 0x03, 0x02, 0x00, 0x0a, 0x38, 0x44, 0xFF] .timeout) =
+  "sd:1000000 sl:250000 w:8 sl:5916661 r:3:3 r:4:4 sl:146666496 sd:500000 r:1024:1 re:1023"
+
 end Modbus.Io
